@@ -365,7 +365,31 @@ func verify(m protoreflect.Message, v *model.Msg, path string) error {
 		}
 		got := m.Get(fd)
 		if f != nil {
-			continue // populated values were compared through the snapshot
+			// populated values were compared through the snapshot; container-level contracts here
+			switch {
+			case fd.IsMap():
+				mp := got.Map()
+				if mp.Len() != len(f.Keys) {
+					return fmt.Errorf("%s.%s: Map.Len = %d, model has %d entries", path, fd.Name(), mp.Len(), len(f.Keys))
+				}
+				if len(f.Keys) >= 2 {
+					calls := 0
+					mp.Range(func(protoreflect.MapKey, protoreflect.Value) bool { calls++; return false })
+					if calls != 1 {
+						return fmt.Errorf("%s.%s: Map.Range called f %d times although f returned false at the first call", path, fd.Name(), calls)
+					}
+				}
+				for _, k := range f.Keys {
+					if !mp.Has(model.ToValue(fd.MapKey(), k).MapKey()) {
+						return fmt.Errorf("%s.%s: Map.Has is false for a key Range reports", path, fd.Name())
+					}
+				}
+			case fd.IsList():
+				if got.List().Len() != len(f.Vals) {
+					return fmt.Errorf("%s.%s: List.Len = %d, model has %d elements", path, fd.Name(), got.List().Len(), len(f.Vals))
+				}
+			}
+			continue
 		}
 		switch {
 		case fd.IsList():
